@@ -12,10 +12,23 @@ def parse_model(model):
         return DznJsonAst(json.dumps(D.to_json(model['doc']))).process()
 
 
-def mk_select(sel):
+class StrSub(str):
+    """REPRESENTATION: a name that is an instance of a str subclass with its own __str__ - like a member of
+    `class Port(str, Enum)`, whose str() is 'Port.GLUE' while it IS the string 'glue'."""
+
+    def __str__(self):
+        return 'StrSub.MEMBER'
+
+    def __repr__(self):
+        return '<StrSub>'
+
+
+def mk_select(sel, form=None):
     from dznpy.adv_shell import PortSelect, PortWildcard  # pylint: disable=import-outside-toplevel
     if isinstance(sel, str):
         return PortSelect(PortWildcard[sel])
+    if form == 'subclass':
+        return PortSelect({StrSub(n) for n in sel})
     return PortSelect(set(sel))
 
 
@@ -23,11 +36,13 @@ def mk_ports_cfg(cfg):
     from dznpy.adv_shell import PortsCfg, PortsSemanticsCfg, MultiClientPortCfg  # pylint: disable=import-outside-toplevel
     from dznpy.scoping import ns_ids_t  # pylint: disable=import-outside-toplevel
     mcfg = None
+    form = cfg.get('names_form')
+    wrap = StrSub if form == 'subclass' else (lambda x: x)
     if cfg.get('mc'):
         m = cfg['mc']
-        mcfg = MultiClientPortCfg(m['port'], m['claim'], ns_ids_t(m['grant']), m['release'])
-    return PortsCfg(provides=PortsSemanticsCfg(sts=mk_select(cfg['provides'][0]), mts=mk_select(cfg['provides'][1])),
-                    requires=PortsSemanticsCfg(sts=mk_select(cfg['requires'][0]), mts=mk_select(cfg['requires'][1])),
+        mcfg = MultiClientPortCfg(wrap(m['port']), wrap(m['claim']), ns_ids_t(m['grant']), wrap(m['release']))
+    return PortsCfg(provides=PortsSemanticsCfg(sts=mk_select(cfg['provides'][0], form), mts=mk_select(cfg['provides'][1], form)),
+                    requires=PortsSemanticsCfg(sts=mk_select(cfg['requires'][0], form), mts=mk_select(cfg['requires'][1], form)),
                     multiclient=mcfg)
 
 
